@@ -68,14 +68,24 @@ def install():
     # --- per-thread cache for get_device_mesh (functools.cache is per PROCESS in real training = per rank)
     import distributed_shampoo.utils.shampoo_dist_utils as du
 
-    raw = getattr(du.get_device_mesh, "__wrapped__", du.get_device_mesh)
+    lib = du.get_device_mesh
+    raw = getattr(lib, "__wrapped__", lib)
+    # every simulated process gets its own instance of the LIBRARY's caching policy (functools.cache / lru_cache with the
+    # library's own maxsize / typed), so that a change of that policy is part of what the ledger observes
+    params = lib.cache_parameters() if hasattr(lib, "cache_parameters") else None
 
-    def get_device_mesh(device_type, mesh, mesh_dim_names=None):
-        c = _tls.__dict__.setdefault("mesh_cache", {})
-        k = (device_type, mesh, mesh_dim_names)
-        if k not in c:
-            c[k] = raw(device_type, mesh, mesh_dim_names)
-        return c[k]
+    def _fresh_cache():
+        import functools
+
+        if params is None:
+            return raw if raw is lib else functools.cache(raw)
+        return functools.lru_cache(maxsize=params.get("maxsize"), typed=params.get("typed", False))(raw)
+
+    def get_device_mesh(*args, **kwargs):
+        f = _tls.__dict__.get("mesh_cache")
+        if f is None or isinstance(f, dict):
+            f = _tls.mesh_cache = _fresh_cache()
+        return f(*args, **kwargs)  # arguments exactly as the call site wrote them: the cache key is the library's
 
     du.get_device_mesh = get_device_mesh
     for modname in ("shampoo_ddp_distributor", "shampoo_hsdp_distributor", "shampoo_hybrid_shard_distributor"):
@@ -248,7 +258,7 @@ class World:
 
         def body(rank):
             _tls.rank = rank
-            _tls.mesh_cache = {}
+            _tls.mesh_cache = None
             try:
                 dist.init_process_group(backend="threaded", rank=rank, world_size=self.W, store=store)
                 self.results[rank] = rank_fn(rank, self)
